@@ -126,7 +126,7 @@ class glm:
                 vcon = np.resize(vcon, s2.shape + aux) # X, q, q
                 vcon = vcon.T.reshape(aux + (s2.size,)) * \
                     s2.reshape((s2.size,)) # q, q, Xflat
-                vcon = vcon.reshape(aux + s2.shape) # q, q, X
+                vcon = vcon.reshape(aux + con.shape[1:]) # q, q, X
 
         # Create contrast instance
         c = contrast(dim, type, tiny, dofmax)
